@@ -25,8 +25,8 @@ CLAIMS = {
                  "the loop (exact rejection reasons) and characterised for build() by C08/C09; the decimal -> nanoseconds fact FL2 is a named hypothesis (C18). "
                  "Tie + oracle: abstract media playlists (what the text says) rendered in varied surface syntax; the library's report must equal the abstract "
                  "playlist field by field (segment list, URIs, durations to the ns, titles, flags, date ranges with typed client attributes, maps, byte ranges, all "
-                 "playlist-level values, unknown tags) and the text must be accepted; library and model must agree on status and observation."),
-        "design_ref": "DESIGN.md §7 C01",
+                 "playlist-level values, unknown tags) and the text must be accepted; library and model must agree on status and observation. String level with the VALUE as quantified object (Props/C03.lean): media_any_layout - any text whose lines classify into the lines the writer prints for p, up to comments, VERSION lines and swaps of independent lines, parses to exactly p; media_canonical_text."),
+        "design_ref": "DESIGN.md §0.4, §7 C01",
         "note": "K1 (independent-segments rule rejects mixed methods) reported as KNOWN-FINDING; K8 (prefix look-alike tags) was repaired by a fix: commit.",
     },
     "C02": {
@@ -39,8 +39,8 @@ CLAIMS = {
                  "attributes tokenize and unquote to exactly the strings, commas and '=' inside never split or truncate. Value-level parsers (integers to 2^64-1, "
                  "67 in-stream ids, enums, resolution, channels, codecs) are C18's theorems. Tie + oracle: abstract master playlists rendered in varied surface "
                  "syntax; the library's observation must EQUAL the one computed from the abstract playlist (exact rational rounding for binary32), and library and "
-                 "model must agree."),
-        "design_ref": "DESIGN.md §7 C02",
+                 "model must agree. String level with the VALUE as quantified object (Props/C04.lean): master_any_layout / master_canonical_text - any text whose lines classify into the writer's lines for a valid value p (up to comments, VERSION lines, swaps of independent lines) parses to exactly p."),
+        "design_ref": "DESIGN.md §0.4, §7 C02",
         "note": "K8 (prefix look-alike of a value-less tag taken for the tag) was found by this check and repaired by a fix: commit.",
     },
     "C03": {
